@@ -476,12 +476,26 @@ func (bg *Reader) Seek(off Offset) error {
 		ok := bg.cacheSwap(off.File)
 		if ok && bg.dec == nil {
 			// The block came from the cache: point the read-ahead
-			// worker at the block that follows it.
+			// worker at the block that follows it. As on the
+			// decompressing path below, one decompressor is taken
+			// out of circulation and handed back after the redirect,
+			// so that at most cap(working)-1 stale blocks remain
+			// for nextBlock to skip and the worker is woken up.
+			var dec *decompressor
+			select {
+			case dec = <-bg.waiting:
+			case dec = <-bg.working:
+				blk, err := dec.wait()
+				if err == nil {
+					bg.keep(blk)
+				}
+			}
 			select {
 			case <-bg.control:
 			default:
 			}
 			bg.control <- bg.current.NextBase()
+			bg.waiting <- dec
 		}
 		if !ok {
 			var dec *decompressor
@@ -498,6 +512,10 @@ func (bg *Reader) Seek(off Offset) error {
 							// This decompressor had the block we
 							// wanted.
 							bg.current = blk
+							select {
+							case <-bg.control:
+							default:
+							}
 							bg.control <- bg.current.NextBase()
 							bg.waiting <- dec
 							dec = nil
